@@ -23,6 +23,7 @@ import (
 	"github.com/notaryproject/notation-go"
 	"github.com/notaryproject/notation-go/signer"
 	"github.com/notaryproject/notation-go/verifier"
+	"github.com/notaryproject/notation-go/plugin/proto"
 	pf "github.com/notaryproject/notation-plugin-framework-go/plugin"
 	"github.com/opencontainers/go-digest"
 	ocispec "github.com/opencontainers/image-spec/specs-go/v1"
@@ -72,6 +73,11 @@ type Case struct {
 	// signature of the OTHER envelope format to the artifact; it is listed first and fails, the
 	// library's own signature comes second and must verify all the same
 	StrangerFirst bool `json:"strangerFirst,omitempty"`
+	// Transient (plugin signers): the plugin answers ONE command once with a retryable error code
+	// (THROTTLED / TIMEOUT) and works from then on: "metadata", "describe", "generate" + ":" + code.
+	// Whether the library gives up or tries again is its business; a signature it returns must be
+	// a signature of what it was asked to sign
+	Transient string `json:"transient,omitempty"`
 }
 
 type failingReader struct {
@@ -116,9 +122,27 @@ type honestPlugin struct {
 	chain   *pki.Chain
 	keySpec string
 	keyID   string
+	// failOnce: command -> error code answered once
+	failOnce map[string]string
+	mu       sync.Mutex
+	// yield: called inside the signing commands (lets a test interleave overlapping calls)
+	yield func()
+}
+
+func (p *honestPlugin) transient(cmd string) error {
+	p.mu.Lock()
+	defer p.mu.Unlock()
+	if code, ok := p.failOnce[cmd]; ok {
+		delete(p.failOnce, cmd)
+		return proto.RequestError{Code: proto.ErrorCode(code), Err: errors.New("scripted transient failure")}
+	}
+	return nil
 }
 
 func (p *honestPlugin) GetMetadata(ctx context.Context, req *pf.GetMetadataRequest) (*pf.GetMetadataResponse, error) {
+	if err := p.transient("metadata"); err != nil {
+		return nil, err
+	}
 	return &pf.GetMetadataResponse{Name: "honest", Description: "honest in-process plugin", Version: "1.0.0", URL: "https://example.invalid",
 		SupportedContractVersions: []string{"1.0"}, Capabilities: p.caps}, nil
 }
@@ -132,12 +156,21 @@ func (p *honestPlugin) sel(cfg map[string]string) (string, *pki.Chain) {
 }
 
 func (p *honestPlugin) DescribeKey(ctx context.Context, req *pf.DescribeKeyRequest) (*pf.DescribeKeyResponse, error) {
+	if err := p.transient("describe"); err != nil {
+		return nil, err
+	}
 	ks, _ := p.sel(req.PluginConfig)
 	return &pf.DescribeKeyResponse{KeyID: req.KeyID, KeySpec: pf.KeySpec(ks)}, nil
 }
 func (p *honestPlugin) GenerateSignature(ctx context.Context, req *pf.GenerateSignatureRequest) (*pf.GenerateSignatureResponse, error) {
 	alg := map[string]pf.SignatureAlgorithm{"EC-256": pf.SignatureAlgorithmECDSA_SHA256, "EC-384": pf.SignatureAlgorithmECDSA_SHA384, "EC-521": pf.SignatureAlgorithmECDSA_SHA512,
 		"RSA-2048": pf.SignatureAlgorithmRSASSA_PSS_SHA256, "RSA-3072": pf.SignatureAlgorithmRSASSA_PSS_SHA384, "RSA-4096": pf.SignatureAlgorithmRSASSA_PSS_SHA512}
+	if err := p.transient("generate"); err != nil {
+		return nil, err
+	}
+	if p.yield != nil {
+		p.yield()
+	}
 	ks, ch := p.sel(req.PluginConfig)
 	var chain [][]byte
 	for _, c := range ch.X509() {
@@ -146,6 +179,12 @@ func (p *honestPlugin) GenerateSignature(ctx context.Context, req *pf.GenerateSi
 	return &pf.GenerateSignatureResponse{KeyID: req.KeyID, Signature: envb.RawSign(ch.Leaf().Key, req.Payload), SigningAlgorithm: alg[ks], CertificateChain: chain}, nil
 }
 func (p *honestPlugin) GenerateEnvelope(ctx context.Context, req *pf.GenerateEnvelopeRequest) (*pf.GenerateEnvelopeResponse, error) {
+	if err := p.transient("generate"); err != nil {
+		return nil, err
+	}
+	if p.yield != nil {
+		p.yield()
+	}
 	now := time.Now()
 	_, ch := p.sel(req.PluginConfig)
 	spec := envb.Spec{Format: req.SignatureEnvelopeType, Payload: req.Payload, ContentType: req.PayloadType, Scheme: envb.SchemeX509, SigningTime: now,
@@ -336,7 +375,11 @@ func roundTrip(c *Case) (string, string) {
 		if c.Signer == "plugin-envelope" {
 			caps = []pf.Capability{pf.CapabilityEnvelopeGenerator}
 		}
-		s, err := signer.NewPluginSigner(&honestPlugin{caps: caps, chain: ch, keySpec: c.KeySpec}, "key-1", nil)
+		hp := &honestPlugin{caps: caps, chain: ch, keySpec: c.KeySpec}
+		if cmd, code, ok := strings.Cut(c.Transient, ":"); ok {
+			hp.failOnce = map[string]string{cmd: code}
+		}
+		s, err := signer.NewPluginSigner(hp, "key-1", nil)
 		if err != nil {
 			return "harness", "NewPluginSigner: " + err.Error()
 		}
@@ -377,6 +420,12 @@ func roundTrip(c *Case) (string, string) {
 		repo := &memRepo{desc: c.Desc}
 		ref := "registry.example/c07/repo@" + c.Desc.Digest.String()
 		artDesc, _, err := notation.SignOCI(ctx, sgn, repo, notation.SignOptions{SignerSignOptions: sopts, ArtifactReference: ref, UserMetadata: c.Metadata})
+		if err != nil && c.Transient != "" && c.Signer != "local" {
+			if len(repo.sigs) != 0 {
+				return "C07:pushed-although-signing-failed:" + site, fmt.Sprintf("SignOCI failed (%v) yet %d signatures were pushed", err, len(repo.sigs))
+			}
+			return "", "" // giving up after the plugin's transient error is legal
+		}
 		if err != nil {
 			return "C07:sign-failed:" + site, fmt.Sprintf("SignOCI failed for a legal request: %v", err)
 		}
@@ -430,6 +479,9 @@ func roundTrip(c *Case) (string, string) {
 			}
 		}
 		env, _, err = notation.SignBlob(ctx, sgn, reader(c.SignReader, blob), notation.SignBlobOptions{SignerSignOptions: sopts, ContentMediaType: c.MediaType, UserMetadata: c.Metadata})
+		if err != nil && c.Transient != "" && c.Signer != "local" {
+			return "", "" // giving up after the plugin's transient error is legal
+		}
 		if err != nil {
 			return "C07:sign-failed:" + site, fmt.Sprintf("SignBlob failed for a legal request: %v", err)
 		}
@@ -551,6 +603,9 @@ func drawCase(rt *rapid.T) *Case {
 			c.OtherKeyFirst = map[string]string{"sha256": "EC-384", "sha384": "EC-521", "sha512": "EC-256"}[hashOf[c.KeySpec]]
 		}
 	}
+	if c.Signer != "local" && c.OtherKeyFirst == "" && rapid.IntRange(0, 3).Draw(rt, "transient") == 0 {
+		c.Transient = rp.Pick(rt, "transientCmd", "metadata", "describe", "generate", "generate") + ":" + rp.Pick(rt, "transientCode", "THROTTLED", "TIMEOUT")
+	}
 	c.ExpirySecs = rp.Pick(rt, "expiry", int64(0), 0, 1, 30, 3600, 86400, 10*365*86400, int64(rapid.IntRange(600, 1000000).Draw(rt, "expiryRandom")))
 	n := rapid.IntRange(0, 3).Draw(rt, "metadataCount")
 	if n > 0 || rapid.Bool().Draw(rt, "emptyNonNilMetadata") {
@@ -647,6 +702,12 @@ func TestC07_RoundTrip(t *testing.T) {
 		if c.Kind == "blob" && c.VerifyOmit != "" {
 			cl = append(cl, "verify-omits="+c.VerifyOmit)
 		}
+		if c.Transient != "" {
+			cl = append(cl, "plugin-transient-error", "plugin-transient="+c.Transient)
+			if c.Kind == "blob" && strings.HasPrefix(c.Transient, "generate") {
+				cl = append(cl, "plugin-transient-error-after-blob-was-read")
+			}
+		}
 		if c.Kind == "oci" && c.Desc.Size > 1<<53 {
 			cl = append(cl, "size>2^53")
 		}
@@ -656,7 +717,7 @@ func TestC07_RoundTrip(t *testing.T) {
 				cl = append(cl, "after-failed-read")
 			}
 		}
-		rec.Case(cl, true, stats.Fingerprint(c.KeySpec, c.Format, c.Signer, c.Kind, fmt.Sprintf("%+v", c.Desc), c.EmptyAnn, c.BlobLen, c.BlobSeed, c.MediaType, strings.Join(mk, ";"), c.ExpirySecs, c.Identity, c.SignReader, c.VerReader, c.FailFirst, c.VerifyOmit, c.OtherKeyFirst, c.StrangerFirst), func() any { return c })
+		rec.Case(cl, true, stats.Fingerprint(c.KeySpec, c.Format, c.Signer, c.Kind, fmt.Sprintf("%+v", c.Desc), c.EmptyAnn, c.BlobLen, c.BlobSeed, c.MediaType, strings.Join(mk, ";"), c.ExpirySecs, c.Identity, c.SignReader, c.VerReader, c.FailFirst, c.VerifyOmit, c.OtherKeyFirst, c.StrangerFirst, c.Transient), func() any { return c })
 		key, msg := roundTrip(c)
 		if key == "harness" {
 			rt.Fatalf("harness: %s", msg)
